@@ -209,10 +209,10 @@ CHECKS = {
 
 # additions after the first complete build (appended to the level text)
 ALSO = {
-    "C03": " Also: the same gate object re-read after a battery of read-only queries.",
+    "C03": " Also: the same gate object re-read after a battery of read-only queries and after the arrays it handed out were overwritten; dictionary-form asymmetric depolarizing channels; gate.with_probability.",
     "C05": " Also: operations on no qubits (global phases, plain and classically controlled), symbolic operations with the parameter caches checked against the operations held, reflected add right after queries.",
     "C20": " Also: EngineJob's result waiting layered over every settled stream future (errors surface, results pass through, only StreamError polls).",
-    "C01": " Also: user gates that implement only _unitary_, echo steps, every documented control-value form on the classical simulator.",
+    "C01": " Also: user gates that implement only _unitary_, echo steps, every documented control-value form on the classical simulator; views of the final state (density_matrix_of, bloch_vector_of, compute_amplitudes); per-moment copies kept across the iteration.",
     "C02": " Also: the Clifford simulators (CH form, tableau sampler) with repeated keys and feed-forward; Pauli-product measurements; "
            "nested repeated sub-circuits that re-use key names, on all simulators; the same run after its keys were renamed / prefixed; cirq.sample (the self-dispatching entry point); several conditions on one operation and the cirq.If spelling; repetitions of the Clifford simulators as independent runs.",
     "C04": " Also: Moments as values (operations on interleaved qubit ranges in shuffled order), arbitrary channels, repeated and inverted CircuitOperation wrappers, qudit controls up to dimension 6.",
